@@ -94,13 +94,11 @@ class Solver:
 
         self._state_metadata = {
             'dims': state._dims,
-            # This is herm flag take for granted that the liouvillian keep
-            # hermiticity.  But we do not check user passed super operator for
-            # anything other than dimensions.
-            # Nothing is known for an operator evolved as a propagator.
-            'isherm': (
-                state._isherm if self.rhs.dims != state.dims else None
-            ),
+            # The generator is not checked for anything other than its
+            # dimensions: a non-Hermitian Hamiltonian or a user's
+            # superoperator need not keep Hermitian states Hermitian, so
+            # nothing is taken for granted about the output.
+            'isherm': None,
         }
         if state.isket:
             norm = state.norm()
